@@ -299,10 +299,12 @@ def check_common(p, proj, fails, key, want):
 
 
 def reference_schedule(p):
-    """Independent list scheduler for the core dialect (whole-slot efforts at the resource's efficiency, 1 h slots,
-    default calendar, leaves, dailymax, priorities, finish-to-start deps with gapduration)."""
-    hours = lambda k: p["start"] + dt.timedelta(hours=k)        # noqa: E731
-    horizon = p["weeks"] * 7 * 24 + 24 * 60
+    """Independent list scheduler for the core dialect (efforts that are a whole number of slots at the resource's
+    efficiency, slots of the project's resolution, working time by slot start, leaves, dailymax, priorities,
+    finish-to-start deps with gapduration, milestones at the bound)."""
+    gran = p.get("gran", 3600)
+    at = lambda k: p["start"] + dt.timedelta(seconds=k * gran)        # noqa: E731
+    horizon = (p["weeks"] * 7 * 24 + 24 * 60) * 3600 // gran
     busy = defaultdict(set)
     perday = defaultdict(lambda: defaultdict(int))
     order = sorted(range(len(p["tasks"])), key=lambda i: (-p["tasks"][i]["prio"], i))
@@ -320,20 +322,21 @@ def reference_schedule(p):
         pending.remove(pick)
         t = p["tasks"][pick]
         r = res_by[t["res"]]
-        need = EFF_H[t["effort"]] / r["eff"]
+        need = round(EFF_H[t["effort"]] * 3600 / (r["eff"] * gran), 9)
         bound = p["start"]
         for (j, gap) in t["deps"]:
             bound = max(bound, done[j][1] + dt.timedelta(hours=gap))
         if t["effort"] == "ms":
             done[pick] = (bound, bound)
             continue
-        k = int((bound - p["start"]).total_seconds() // 3600)
+        k = int((bound - p["start"]).total_seconds() // gran)
         got = 0
         first = last = None
+        cap = (r["dailymax"] or 0) * 3600 // gran
         while got < need and k < horizon:
-            d = hours(k)
+            d = at(k)
             on_leave = r["leave"] is not None and d.date() == (p["start"] + dt.timedelta(days=r["leave"])).date()
-            lim_ok = not r["dailymax"] or perday[r["id"]][d.date()] < r["dailymax"]
+            lim_ok = not r["dailymax"] or perday[r["id"]][d.date()] < cap
             if default_working(d, r) and not on_leave and k not in busy[r["id"]] and lim_ok:
                 busy[r["id"]].add(k)
                 perday[r["id"]][d.date()] += 1
@@ -341,13 +344,17 @@ def reference_schedule(p):
                 first = k if first is None else first
                 last = k
             k += 1
-        done[pick] = (hours(first), hours(last + 1)) if got >= need else (None, None)
+        done[pick] = (at(first), at(last + 1)) if got >= need else (None, None)
     return {tid(p, i): done.get(i, (None, None)) for i in range(len(p["tasks"]))}
 
 
 def whole_slot(p):
     res_by = {r["id"]: r for r in p["res"]}
-    return all((EFF_H[t["effort"]] / res_by[t["res"]]["eff"]) == int(EFF_H[t["effort"]] / res_by[t["res"]]["eff"]) for t in p["tasks"])   # (milestones: 0)
+    gran = p.get("gran", 3600)
+
+    def slots(t):
+        return round(EFF_H[t["effort"]] * 3600 / (res_by[t["res"]]["eff"] * gran), 9)
+    return all(slots(t) == int(slots(t)) for t in p["tasks"])   # (milestones: 0)
 
 
 # ---------------------------------------------------------------------------------------------------------------
@@ -661,7 +668,7 @@ def main():
                                               "detail": f"{rid} booked {proj.idxToDate(sl)} UTC = {loc} local, shift {htxt}"})
                                 break
     elif prop in ("C07",):
-        projs = [p for p in gen_projects(rng, n * 3, containers=False, sub_slot=False) if whole_slot(p)][:n]
+        projs = [p for p in gen_projects(rng, n * 3, containers=False, sub_slot=True, grans=(3600, 3600, 1800, 900)) if whole_slot(p)][:n]
         for k, p in enumerate(projs):
             text = render(p)
             key = f"C07/{SEED}/{k}"
